@@ -98,6 +98,19 @@ def generate(rng, tier="quick"):
                 lane.append({"op": "serialize", "n": me})
             lanes.append(lane)
     steps = gen.interleave(rng, lanes)
+    if mode == "coop" and npairs == 1 and rng.random() < 0.6:
+        # two sessions, three calls each: walk ALL 20 interleavings along the run index
+        import itertools
+        l0 = [{"op": "boot", "n": 0}, {"op": "start", "n": 0}, {"op": "deliver", "src": 1, "dst": 0}]
+        l1 = [{"op": "boot", "n": 1}, {"op": "start", "n": 1}, {"op": "deliver", "src": 0, "dst": 1}]
+        combos = list(itertools.combinations(range(6), 3))
+        pos0 = set(combos[getattr(rng, "idx", 0) % len(combos)])
+        steps, i0, i1 = [], 0, 0
+        for k in range(6):
+            if k in pos0:
+                steps.append(l0[i0]); i0 += 1
+            else:
+                steps.append(l1[i1]); i1 += 1
     scn = {"property": PROP, "config": {"psets": psets, "nodes": nodes}, "steps": steps,
            "mode": mode, "sched_seed": rng.randrange(1 << 30)}
     if mode == "threads":
